@@ -63,9 +63,19 @@ func checkRaw(c *PanConfig) error {
 	if c.Devices == nil {
 		return nil
 	}
+	// Only first device entry is merged and
+	// only one vsys of some name is found during merge.
+	if len(c.Devices.Entries) > 1 {
+		return fmt.Errorf("Must not use multiple entries in <devices>")
+	}
 	re := regexp.MustCompile(`^r\d`)
 	for _, d := range c.Devices.Entries {
+		seen := make(map[string]bool)
 		for _, v := range d.Vsys {
+			if seen[v.Name] {
+				return fmt.Errorf("Duplicate vsys entry '%s'", v.Name)
+			}
+			seen[v.Name] = true
 			for _, r := range v.Rules {
 				if re.MatchString(r.Name) {
 					return fmt.Errorf(
